@@ -314,6 +314,25 @@ def run(tier, replay=None):
                                      "the call returned %.0f ms after it started, its deadline was %d ms" % (r["ms"], s["deadline_ms"]), rp)
                 run_.nontriv(["e2e", client, s["outcomes"], s["retry"], s["body_var"]])
 
+    # ---- (c') without a retry option a request is TRANSMITTED once - also when its connection dies before the first byte of the
+    # answer (Retry: NoRetryMeansOnce; the raw fault server of C08 counts the copies of every request it receives); with
+    # MaxRetries = 1 nothing is said here (the configured retry re-sends)
+    lost = [{"id": "once-%s-%s-%d" % (client, fault, n), "client": client, "fault": fault, "at": "b0", "ncalls": n, "ctx": "none"}
+            for client in ("json", "sse", "legacy") for fault in ("close", "reset") for n in (1, 2)]
+    lout = common.run_harness_json(["c08"], {"scenarios": lost}, timeout=600, crash_ok=True)
+    if "_crash" in lout:
+        run_.diverge("no-retry process-crash", lout["_crash"][:1200], {"cmd": ["c08"], "input": {"scenarios": lost}})
+    else:
+        for sc, r in zip(lost, lout["results"]):
+            if r.get("broken"):
+                raise common.Broken("no-retry scenario %s: %s" % (sc["id"], r["broken"]))
+            run_.evaluations += 1
+            run_.nontriv(["once", sc["id"]])
+            extra = {k: v for k, v in (r.get("seen") or {}).items() if v > 1}
+            if extra:
+                run_.diverge("client=%s no-retry request-transmitted-twice" % sc["client"],
+                             "no retry option is configured and the connection was %s before the first byte of the answer: the peer received %s" % (sc["fault"], r.get("seen")),
+                             {"cmd": ["c08"], "input": {"scenarios": [sc]}, "observed": {"seen": r.get("seen"), "calls": r["calls"]}, "spec": "Retry (NoRetryMeansOnce)"})
     # ---- (d) clamping
     cr = tla.run_tlc("RetryClamp", "RetryClamp.cfg", dump=True)
     if not cr.ok:
